@@ -633,6 +633,9 @@ class Class(Node):
         self.statements = []  # type: List[Union[AssignmentStatement, IfStatement, ForStatement]]
         self.annotation = []  # type: Union[Type[None], ClassModification]
         self.parent = None  # type: Class
+        # True for the empty packages the parser creates for the names in a
+        # `within` clause, until they are merged with the real definition.
+        self.within_placeholder = False  # type: bool
 
         super().__init__(**kwargs)
 
@@ -781,11 +784,19 @@ class Class(Node):
         return ComponentRef.from_tuple(tuple(reversed(names[:-1])))
 
     def _extend(self, other: "Class") -> None:
-        for class_name in other.classes.keys():
-            if class_name in self.classes.keys():
-                self.classes[class_name]._extend(other.classes[class_name])
+        for class_name, other_class in other.classes.items():
+            self_class = self.classes.get(class_name)
+            if self_class is None:
+                self.classes[class_name] = other_class
+            elif self_class.within_placeholder and not other_class.within_placeholder:
+                # Until now we only had the empty package standing in for a name
+                # in a `within` clause. The real definition takes its place
+                # (keeping its own symbols, imports, extends, etc.) and receives
+                # the classes collected so far.
+                other_class._extend(self_class)
+                self.classes[class_name] = other_class
             else:
-                self.classes[class_name] = other.classes[class_name]
+                self_class._extend(other_class)
 
     @property
     def root(self):
